@@ -111,7 +111,12 @@ func (f *File) Close() error {
 	if f == nil {
 		return os.ErrInvalid
 	}
-	return f.File.Close()
+	err := f.File.Close()
+	if h := zzvf.GfsOnClose; err == nil && h != nil {
+		zzvf.GfsOnClose = nil
+		h()
+	}
+	return err
 }
 
 func Remove(name string) error {
